@@ -231,6 +231,32 @@ def flag(ctx):
 
         def transfer(node, st, lab):
             return True if marks(node) else st
+        # ... and the mark comes last: a direct write, in the entry point itself, of state the pass reads must still be
+        # followed by a mark on every path (in always-consistent mode the mark *is* the pass; what is written after it is
+        # seen by no pass until the next edit)
+        fresh_fi = eng.fresh_locals(fi)
+        for w in effects.direct_writes(ctx, fi):
+            if isinstance(w.node, ast.Name) or eng.root_of(fi, w.recv, fresh_fi) == 'FRESH':
+                continue
+            hit = [cl for cl in w.classes if (cl, w.attr) in Rreads]
+            if not hit:
+                continue
+            if w.kind == 'assign' and isinstance(w.value, ast.Constant) and w.value.value is None:
+                continue      # detaching an object the pass would have updated leaves nothing for it to update
+            wn = g.node_of(w.stmt)
+            if wn is None:
+                continue
+
+            def tr2(node, st, lab):
+                if node is wn:
+                    return st
+                return False if marks(node) else st
+            IN2 = g.forward(True, tr2, lambda a, b: a or b, start=wn)
+            late = bool(IN2.get(g.exit.id))
+            obs.append(Ob('SA-RESHUFFLE.flag', '%s|%s is followed by the mark' % (fi.qual, norm(w.stmt)[:60]), not late, ctx.loc(fi, w.node),
+                          '' if not late else '%s writes %s.%s, which the recomputation pass reads, on a path on which no _finish_add/_finish_remove follows any more: '
+                          'in always-consistent mode the pass has already run and does not see it (lazy mode runs it later and does), so the two modes master '
+                          'different images' % (fi.name, hit[0].split('.')[-1], w.attr)))
         IN = g.forward(False, transfer, lambda a, b: a and b)
         ok = bool(IN[g.exit.id])
         obs.append(Ob('SA-RESHUFFLE.flag', fi.qual, ok, ctx.loc(fi, fi.node),
